@@ -81,11 +81,12 @@ pub fn jobs(tier: Tier) -> Vec<Job> {
     let templates = templates();
     let mut v = Vec::new();
     let (max_len, specs, bound): (usize, &[SpecId], usize) = match tier {
-        Tier::Quick => (3, &[SpecId::SPURIOUS_DRAGON, SpecId::BERLIN, SpecId::CANCUN, SpecId::OSAKA], 1),
+        Tier::Quick => (3, &[SpecId::FRONTIER, SpecId::SPURIOUS_DRAGON, SpecId::BERLIN, SpecId::CANCUN], 1),
         Tier::Thorough => (
             3,
             &[
-                SpecId::HOMESTEAD,
+                SpecId::FRONTIER,
+                SpecId::TANGERINE,
                 SpecId::SPURIOUS_DRAGON,
                 SpecId::PETERSBURG,
                 SpecId::BERLIN,
